@@ -7,7 +7,7 @@ Open Scope N_scope.
 
 (* ======================================================================================== *)
 (* the scripted child choice never picks a zero link                                         *)
-Lemma random_child_safe b p script : reduced b -> 2 <= p -> p < size b ->
+Lemma random_child_safe b p script : nz b -> 2 <= p -> p < size b ->
   child b p (fst (random_child b p script)) <> 0.
 Proof.
   intros R Hp Hlt. unfold random_child, low_zero, high_zero, child.
@@ -23,7 +23,7 @@ Qed.
 Definition pvset_fold (ds : list dec) (acc : pval) : pval :=
   fold_left (fun pv xc => pv_set pv (N.to_nat (fst xc)) (Some (snd xc))) ds acc.
 
-Lemma random_clause_walk_spec b : wf b -> reduced b -> forall fuel p script acc, valid b p -> p <> 0 -> enough b p fuel ->
+Lemma random_clause_walk_spec b : wf b -> nz b -> forall fuel p script acc, valid b p -> p <> 0 -> enough b p fuel ->
   exists ds, path b p ds 1 /\ random_clause_walk fuel b p script acc = Ok (pvset_fold ds acc).
 Proof.
   intros W R. induction fuel as [|f IH]; intros p script acc V Hp E; [unfold enough in E; lia|].
@@ -44,7 +44,7 @@ Qed.
 Theorem random_clause_none b script : is_false b = true -> random_clause b script = Ok None.
 Proof. intros H. unfold random_clause. now rewrite H. Qed.
 
-Theorem random_clause_spec b script : Canonical b -> is_false b = false ->
+Theorem random_clause_spec_benign b script : Benign b -> is_false b = false ->
   exists pv, random_clause b script = Ok (Some pv) /\ is_path b pv.
 Proof.
   intros (W & R & _) Hf. unfold random_clause. rewrite Hf.
@@ -55,11 +55,16 @@ Proof.
   destruct (path_vars b W ds (root b) 1 Vr P) as (_ & _ & _ & N).
   destruct (record_path_clause ds N) as (pv & Hpv & Hl). rewrite fold_rec_cset in Hpv. inversion Hpv. subst pv. exact Hl.
 Qed.
+Print Assumptions random_clause_spec_benign.
+
+Theorem random_clause_spec b script : Canonical b -> is_false b = false ->
+  exists pv, random_clause b script = Ok (Some pv) /\ is_path b pv.
+Proof. intros C. apply random_clause_spec_benign. apply canonical_benign. exact C. Qed.
 Print Assumptions random_clause_spec.
 
 (* ======================================================================================== *)
 (* random_valuation                                                                          *)
-Lemma rv_loop_spec b : wf b -> reduced b -> forall k i p script, valid b p -> p <> 0 -> i <= var_of b p ->
+Lemma rv_loop_spec b : wf b -> nz b -> forall k i p script, valid b p -> p <> 0 -> i <= var_of b p ->
   i + N.of_nat k = nvars b ->
   exists r, random_valuation_loop k b i p script = Ok r /\ length r = k /\
     forall v : val, (forall j, (j < k)%nat -> v (i + N.of_nat j) = nth j r false) -> sem b p v = true.
@@ -95,7 +100,7 @@ Qed.
 Theorem random_valuation_none b script : is_false b = true -> random_valuation b script = Ok None.
 Proof. intros H. unfold random_valuation. now rewrite H. Qed.
 
-Theorem random_valuation_spec b script : Canonical b -> is_false b = false ->
+Theorem random_valuation_spec_benign b script : Benign b -> is_false b = false ->
   exists l, random_valuation b script = Ok (Some l) /\ sat_list b l.
 Proof.
   intros (W & R & _) Hf. unfold random_valuation. rewrite Hf.
@@ -104,56 +109,15 @@ Proof.
   rewrite Hr. cbn [some_of bind]. exists r. split; [reflexivity|]. split; [exact Hlen|].
   unfold eval. fold (root b). apply Hsem. intros j Hj. unfold val_of_list. f_equal. lia.
 Qed.
+Print Assumptions random_valuation_spec_benign.
+
+Theorem random_valuation_spec b script : Canonical b -> is_false b = false ->
+  exists l, random_valuation b script = Ok (Some l) /\ sat_list b l.
+Proof. intros C. apply random_valuation_spec_benign. apply canonical_benign. exact C. Qed.
 Print Assumptions random_valuation_spec.
 
 (* ======================================================================================== *)
-(* sat_witness: every node other than the root has a parent stored after it                  *)
-Definition is_parent (G : bdd) (j i : N) : Prop := nlow (get G j) = i \/ nhigh (get G j) = i.
-
-Lemma chk_parents fuel G : forall lim p l, chk fuel G lim p = Some l ->
-  forall i, lim <= i -> i < l -> i = p \/ exists j, i < j /\ j < l /\ is_parent G j i.
-Proof.
-  induction fuel as [|f IH]; intros lim p l H i Hi Hl; [discriminate|]. cbn in H.
-  destruct (N.ltb_spec p lim).
-  - inversion H; subst. lia.
-  - destruct (chk f G lim (nhigh (get G p))) as [l1|] eqn:E1; [|discriminate].
-    destruct (chk f G l1 (nlow (get G p))) as [l2|] eqn:E2; [|discriminate].
-    destruct (N.eqb_spec p l2); [|discriminate]. inversion H; subst.
-    pose proof (chk_lt _ _ _ _ _ E1) as (A1 & A2). pose proof (chk_lt _ _ _ _ _ E2) as (B1 & B2).
-    destruct (N.eq_dec i l2) as [->|Hne]; [now left|]. right.
-    destruct (N.lt_ge_cases i l1) as [Hi1|Hi1].
-    + destruct (IH _ _ _ E1 i Hi Hi1) as [->|(j & J1 & J2 & J3)].
-      * exists l2. split; [lia|]. split; [lia|]. right. reflexivity.
-      * exists j. split; [lia|]. split; [lia|exact J3].
-    + destruct (IH _ _ _ E2 i Hi1 ltac:(lia)) as [->|(j & J1 & J2 & J3)].
-      * exists l2. split; [lia|]. split; [lia|]. left. reflexivity.
-      * exists j. split; [lia|]. split; [lia|exact J3].
-Qed.
-
-Lemma path_last_parent b : forall ds p, path b p ds 1 -> p <> 1 ->
-  exists j, 2 <= j /\ j < size b /\ is_parent b j 1.
-Proof.
-  induction ds as [|[x c] ds IH]; intros p P Hp; cbn [path fst snd] in P; [congruence|].
-  destruct P as (H2 & Hlt & _ & P).
-  destruct (N.eq_dec (child b p c) 1) as [E|E].
-  - exists p. split; [exact H2|]. split; [exact Hlt|]. unfold is_parent, child in *. destruct c; [right|left]; exact E.
-  - apply (IH _ P E).
-Qed.
-
-Lemma has_parent b q : Canonical b -> 1 <= q -> q < root b ->
-  exists j, 2 <= j /\ q < j /\ j < size b /\ is_parent b j q.
-Proof.
-  intros C Hq Hr. pose proof C as (W & R & L). unfold root in Hr.
-  destruct (N.eq_dec q 1) as [->|Hq1].
-  - assert (Hf : is_false b = false) by (unfold is_false; apply N.eqb_neq; lia).
-    destruct (nonzero_path b (root b) W R (valid_root b W) (root_nonzero b W Hf)) as (ds & P).
-    destruct (path_last_parent b ds (root b) P) as (j & J1 & J2 & J3); [unfold root; lia|].
-    exists j. repeat split; try assumption; lia.
-  - destruct L as [L|L]; [lia|].
-    destruct (chk_parents _ _ _ _ _ L q ltac:(lia) ltac:(lia)) as [->|(j & J1 & J2 & J3)]; [lia|].
-    exists j. repeat split; try assumption; lia.
-Qed.
-
+(* sat_witness: every node other than the root has a parent stored after it (has_parent, SelectBase) *)
 Lemma skipn_cons_nth {T} (l : list T) d : forall n x r, skipn n l = x :: r ->
   nth n l d = x /\ skipn (S n) l = r /\ (n < length l)%nat.
 Proof.
@@ -172,14 +136,14 @@ Qed.
 
 Definition no_later_parent (b : bdd) (find i : N) : Prop := forall j, find < j -> j < i -> 2 <= j -> ~ is_parent b j find.
 
-Lemma sat_witness_scan_spec b : Canonical b -> forall nodes i find acc,
+Lemma sat_witness_scan_spec b : Benign b -> forall nodes i find acc,
   skipn (N.to_nat i) b = nodes -> 2 <= i -> i <= size b -> 1 <= find -> find < i ->
   length acc = N.to_nat (nvars b) -> no_later_parent b find i ->
   (exists ds, path b find ds 1 /\ follows (val_of_list acc) ds) ->
   exists l, sat_witness_scan nodes i find acc = Ok l /\ length l = N.to_nat (nvars b) /\
     exists ds, path b (root b) ds 1 /\ follows (val_of_list l) ds.
 Proof.
-  intros C. pose proof C as (W & R & L).
+  intros C. pose proof C as (W & R & T & _).
   induction nodes as [|n nodes IH]; intros i find acc Hsk Hi Hsz Hf1 Hfi Hlen Hnp (ds & P & F).
   - (* end of the array: find must be the root *)
     cbn [sat_witness_scan]. exists acc. split; [reflexivity|]. split; [exact Hlen|].
@@ -192,7 +156,7 @@ Proof.
   - destruct (skipn_cons_nth b dnode _ _ _ Hsk) as (Hn & Hsk' & Hlt).
     assert (Hget : get b i = n) by exact Hn.
     assert (Hi' : i < size b) by (unfold size; lia).
-    destruct (kids_lt b C i Hi Hi') as (Kl & Kh). rewrite Hget in Kl, Kh.
+    destruct (kids_lt b T i Hi Hi') as (Kl & Kh). rewrite Hget in Kl, Kh.
     destruct (wf_children b i W Hi Hi') as (Vl & Vh & Hvl & Hvh & Hvn). rewrite Hget in Vl, Vh, Hvl, Hvh.
     assert (Hxn : nvar n < N.of_nat (length acc)) by (unfold var_of in Hvn; rewrite Hget in Hvn; lia).
     assert (Hsk2 : skipn (N.to_nat (i + 1)) b = nodes) by (replace (N.to_nat (i + 1)) with (S (N.to_nat i)) by lia; exact Hsk').
@@ -231,7 +195,7 @@ Qed.
 Theorem sat_witness_none b : is_false b = true -> sat_witness b = Ok None.
 Proof. intros H. unfold sat_witness. now rewrite H. Qed.
 
-Theorem sat_witness_spec b : Canonical b -> is_false b = false ->
+Theorem sat_witness_spec_benign b : Benign b -> is_false b = false ->
   exists l, sat_witness b = Ok (Some l) /\ sat_list b l.
 Proof.
   intros C Hf. pose proof C as (W & R & _). unfold sat_witness. rewrite Hf.
@@ -244,4 +208,9 @@ Proof.
   - rewrite Hl. cbn [some_of bind]. exists l. split; [reflexivity|]. split; [exact Hlen|].
     unfold eval. fold (root b). rewrite (path_sem b W ds (root b) 1 _ P F). reflexivity.
 Qed.
+Print Assumptions sat_witness_spec_benign.
+
+Theorem sat_witness_spec b : Canonical b -> is_false b = false ->
+  exists l, sat_witness b = Ok (Some l) /\ sat_list b l.
+Proof. intros C. apply sat_witness_spec_benign. apply canonical_benign. exact C. Qed.
 Print Assumptions sat_witness_spec.
